@@ -97,7 +97,8 @@ def tlc(module, cfg=None, *, workers=4, timeout=600, simulate=None, depth=None,
     cwd = cwd or SPEC
     cfg = cfg or (module + ".cfg")
     meta = tempfile.mkdtemp(prefix="tlcmeta_")
-    jvm_opts = ["-XX:+UseParallelGC", "-Xss64m", "-Xmx6g"] + (jvm or [])
+    # TLC unpacks its standard modules into java.io.tmpdir (/tmp/tlc-*) and never removes them
+    jvm_opts = ["-XX:+UseParallelGC", "-Xss64m", "-Xmx6g", "-Djava.io.tmpdir=" + meta] + (jvm or [])
     cmd = ["timeout", str(timeout), "java"] + jvm_opts + ["-cp", _classpath(), "tlc2.TLC",
            "-metadir", meta, "-cleanup", "-noGenerateSpecTE", "-config", cfg]
     if not deadlock:
